@@ -175,10 +175,17 @@ FileToks(file, f, ch) ==
 
 \* separator classes and their width in characters; "nl" starts a new row
 \*   sp ' '   tab '\t'   cr '\r'   bc '/*c<e-acute>*/' (6 chars)   lc '//c' (then a line break must follow)   lc4 '////x'
-ClassCols == [sp |-> 1, tab |-> 1, cr |-> 1, bc |-> 6, lc |-> 3, lc4 |-> 5, ws3 |-> 1]
+\*   bc2 '/* x **/' (8 chars)   bc3 '/***/' (5 chars)
+\*   ppskip: a line break, a conditional block that is not selected ('#if NOPE' / a definition / '#endif') and a line break
+\*   ppdef : a line break, '#define ZED' and a line break             (the slice lexer continues in a new source block)
+ClassCols == [sp |-> 1, tab |-> 1, cr |-> 1, bc |-> 6, lc |-> 3, lc4 |-> 5, ws3 |-> 1, bc2 |-> 8, bc3 |-> 5]
 Seps == << <<"sp">>, <<"nl">>, <<"tab">>, <<"cr", "nl">>, <<"sp", "bc", "sp">>, <<"sp", "lc", "nl">>, <<"nl", "sp", "sp">>,
-           <<"lc4", "nl", "tab">>, <<"sp">>, <<"nl", "nl", "sp", "sp", "sp", "sp">>, <<"ws3">>, <<"bc">> >>
-Adv(cur, cls) == IF cls = "nl" THEN [row |-> cur.row + 1, col |-> 1] ELSE [row |-> cur.row, col |-> cur.col + ClassCols[cls]]
+           <<"lc4", "nl", "tab">>, <<"sp">>, <<"nl", "nl", "sp", "sp", "sp", "sp">>, <<"ws3">>, <<"bc">>,
+           <<"ppskip", "sp", "sp", "sp">>, <<"bc2">>, <<"sp", "ppdef", "tab">>, <<"bc3", "sp">> >>
+Adv(cur, cls) == CASE cls = "nl" -> [row |-> cur.row + 1, col |-> 1]
+                   [] cls = "ppskip" -> [row |-> cur.row + 4, col |-> 1]
+                   [] cls = "ppdef" -> [row |-> cur.row + 2, col |-> 1]
+                   [] OTHER -> [row |-> cur.row, col |-> cur.col + ClassCols[cls]]
 RECURSIVE AdvAll(_, _, _)
 AdvAll(cur, s, i) == IF i > Len(s) THEN cur ELSE AdvAll(Adv(cur, s[i]), s, i + 1)
 
